@@ -125,7 +125,31 @@ def run(cx: Cx):
             parts.append(mk_cmp(sub(p_a, L), '<=', Attr(pos, ax)))
             parts.append(mk_cmp(Attr(pos, ax), '<=', add(p_a, L)))
         E = f_and(*parts)
-        cex = compare(F, E, domain='real')
+        # the box is a conjunction of per-axis intervals: when the filter is a conjunction whose conjuncts each read one axis
+        # it is compared axis by axis (same verdict, far fewer order regions)
+        from sa.terms import FAnd, TooManyRegions
+        cex = None
+        split = None
+        if isinstance(F, FAnd):
+            split = {ax: [] for ax, _, _ in AXES}
+            for part in F.parts:
+                axs = {s.name for s in term_symbols(part) if isinstance(s, Attr) and s.base == pos and s.name in split}
+                if len(axs) != 1:
+                    split = None
+                    break
+                split[axs.pop()].append(part)
+        try:
+            if split is not None:
+                for k, (ax, _, _) in enumerate(AXES):
+                    cex = compare(f_and(*split[ax]), f_and(parts[2 * k], parts[2 * k + 1]), domain='real')
+                    if cex is not None:
+                        break
+            else:
+                cex = compare(F, E, domain='real')
+        except TooManyRegions as ex:
+            cx.inconclusive('R-GUARD', 'get_agents_at filter', f"the filter [{F!r}] has too many distinct comparison terms to be compared "
+                            f"with the leeway box ({ex})", where=where, function=fn.qualname)
+            continue
         if cex is None:
             cx.ok('R-GUARD', 'filter == closed leeway box on all three axes', where=where, function=fn.qualname, filter=repr(F))
         else:
@@ -149,3 +173,7 @@ def run(cx: Cx):
         cx.violation('R-GUARD', fn.qualname, 'seam-distance-needs-wrap_env-and-extents',
                      "get_agents_at is documented to respect the toroidal mode but never reads wrap_env nor an extent: in a "
                      "wrapping world distance is not measured around the seam", where=cx.where(fn), reads=sorted(names))
+    from .common import check_no_stateful_memo
+    check_no_stateful_memo(cx)
+
+
